@@ -68,7 +68,9 @@ def judge(acc, case, prog, cfg, rng):
     # feasibility tolerance of the returned instance: the heuristic problems are solved to solver tolerance too
     for f in pf:
         findings.append(dict(f, key="dimred:" + f["key"]))
-    sc = cinfo.get("scale", 1.0)
+    # DESIGN 2.8: the scale includes the size of the primal solution (the heuristic problems are badly scaled:
+    # weights up to 1/eig_regularization, Gram entries of 1e6 with SCS), not only the multipliers
+    sc = max(cinfo.get("scale", 1.0), pinfo.get("scale", 1.0))
     tau = cinfo.get("tau_identity")
     final_obj = rec["inner"][-1]["value"]       # objective of the heuristic problem (must NOT be what is returned)
     pep = rec["pep"]
